@@ -2,6 +2,7 @@
 import JumanjiModel.Bridge.Json
 import JumanjiModel.Env.MMST.Model
 import JumanjiModel.Env.MMST.Bounds
+import JumanjiModel.Env.MMST.FeasibleLemmas
 open Lean Jb
 
 namespace Jb.MMST
@@ -108,6 +109,7 @@ def opInstance : Op := fun j => do
               ("blocks_connected", jBool (certBlocksConnected cfg s)),
               ("graph_connected", jBool (certGraphConnected cfg s)),
               ("start_ok", jBool (certStart cfg s)),
+              ("edges_adjacency", jBool (certEdgesAdj cfg s)),
               ("reset_feasible", jBool (decide (Feasible cfg s))),
               ("info_degree_le_max_degree_plus_1", jStr (if certDegree cfg s (maxDeg + 1) then "yes" else "no")),
               ("info_edge_count", jInt (edgeCount cfg s))])
